@@ -101,8 +101,8 @@ class CommitXlsxExporter:
         # Setup the name postfix increment counter
         name_postfix_increment = 0
 
-        # Set the sheet name to be the commit name
-        sheet_name = commit.name
+        # Set the sheet name to be the commit name (without the characters a sheet title may not contain)
+        sheet_name = sub(r"[\\*?:/\[\]]", "_", commit.name)
 
         # Check if the sheet name is greater than 31 characters
         if len(sheet_name) > 31:
